@@ -112,7 +112,6 @@ func child() {
 	if !w.bad.Load() {
 		w.checkCanary("after the batch")
 	}
-	hw.scanLog()
 	run.Max("max_scheduling_stall_ms", w.stall.maxMS())
 	run.Count("batches_completed", 1)
 	os.Exit(0)
@@ -168,7 +167,8 @@ func main() {
 			defer func() { <-sem }()
 			a := args
 			a.Index, a.Pass = j.b, j.pass
-			res := run.RunChild("batch", a, 25*time.Minute, "GOMAXPROCS=4")
+			res := run.RunChild("batch", a, 25*time.Minute)
+			scanLog(run, strings.TrimSuffix(res.OutFile, ".out")+".d/server.log", j.b, j.pass)
 			switch {
 			case strings.HasPrefix(res.Crash, "harness-crash:"):
 				run.Inconclusive(fmt.Sprintf("batch %d pass %d: a crash without any galene frame on the stack: %s\n%s", j.b, j.pass, res.Crash, res.CrashText))
